@@ -578,8 +578,15 @@ attrconverters = {
 	((DRAWNS,u'mirror-horizontal'), None): cnv_boolean,
 	((DRAWNS,u'mirror-vertical'), None): cnv_boolean,
 	((DRAWNS,u'modifiers'), None): cnv_string,
-	((DRAWNS,u'name'), None): cnv_NCName,
-#	((DRAWNS,u'name'), None): cnv_string,
+	((DRAWNS,u'name'), (DRAWNS,u'fill-image')): cnv_NCName,
+	((DRAWNS,u'name'), (DRAWNS,u'gradient')): cnv_NCName,
+	((DRAWNS,u'name'), (DRAWNS,u'hatch')): cnv_NCName,
+	((DRAWNS,u'name'), (DRAWNS,u'marker')): cnv_NCName,
+	((DRAWNS,u'name'), (DRAWNS,u'opacity')): cnv_NCName,
+	((DRAWNS,u'name'), (DRAWNS,u'stroke-dash')): cnv_NCName,
+	((DRAWNS,u'name'), (SVGNS,u'linearGradient')): cnv_NCName,
+	((DRAWNS,u'name'), (SVGNS,u'radialGradient')): cnv_NCName,
+	((DRAWNS,u'name'), None): cnv_string, # the name of a shape, layer or page is any string
 	((DRAWNS,u'nav-order'), None): cnv_IDREF,
 	((DRAWNS,u'nohref'), None): cnv_string,
 	((DRAWNS,u'notify-on-update-of-ranges'), None): cnv_string,
